@@ -430,6 +430,11 @@ func loadChunk(l *Lexer, recordLen uint64) error {
 
 		_, err := io.ReadFull(l.reader, l.uncompressedChunk[:uncompressedSize])
 		if err != nil {
+			if errors.Is(err, io.EOF) {
+				// a chunk that decompresses to nothing although it declares a size is
+				// damaged; it must not look like the end of the file to the caller
+				err = io.ErrUnexpectedEOF
+			}
 			return fmt.Errorf("failed to decompress chunk: %w", err)
 		}
 
